@@ -43,6 +43,17 @@ typedef struct glyph_t glyph_t;
 #define HASH_SIZE (2 * N_GLYPHS_HIGH_WATER)
 #define HASH_MASK (HASH_SIZE - 1)
 
+#if defined(PIXMAN_VERIF) && defined(PIXMAN_VERIF_GLYPH_HASH_BITS)
+/* Verification hook (never defined in a normal build): shrink the table to
+ * 2^PIXMAN_VERIF_GLYPH_HASH_BITS slots (>= 2) so that small-scope histories can be
+ * enumerated.  HASH_SIZE and HASH_MASK follow from N_GLYPHS_HIGH_WATER.
+ */
+#undef N_GLYPHS_HIGH_WATER
+#undef N_GLYPHS_LOW_WATER
+#define N_GLYPHS_HIGH_WATER  (1 << (PIXMAN_VERIF_GLYPH_HASH_BITS - 1))
+#define N_GLYPHS_LOW_WATER   (1 << (PIXMAN_VERIF_GLYPH_HASH_BITS - 2))
+#endif
+
 struct glyph_t
 {
     void *		font_key;
